@@ -15,7 +15,7 @@ RULE = ('programs (ending by value / Stop / UnsuccessfulResult / Kill command / 
 RULE += ('; also: observers that raise from every notification (unprintable exceptions at the endings), listeners registered twice, cleanups that register cleanups, recreated processes whose future is cancelled, falsy exception objects, the future handed out before the run compared with the one handed out after it, and an end-of-test audit of every process the repository\'s own test suite terminates')
 ASSUMPTIONS = ['expected outcome is computed from the program text and the request log, not read back from the process',
                'hooks do not raise (C03 owns that)']
-REQUIRED = ['suite_audits', 'terminated', 'final/finished', 'final/excepted', 'final/killed', 'kill_while_paused', 'kill_in_step', 'kill_from_listener',
+REQUIRED = ['detaching_listener_runs', 'suite_audits', 'terminated', 'final/finished', 'final/excepted', 'final/killed', 'kill_while_paused', 'kill_in_step', 'kill_from_listener',
             'unsuccessful_by_outputs', 'raising_listener_runs', 'listener_twice_runs']
 ALPHABET = [['pause', 'p'], ['play'], ['kill', 'k'], ['resume', ['v']], ['fail', 'falsy-f'], ['soon_raise', 'c']]  # (fail: with an exception instance that is falsy)
 BOUNDS = {'quick': 'basic program family (+required-output variants), K<=2 exhaustive', 'thorough': 'K=3 exhaustive on 4 key programs, + 40 random programs, K=3 sampled'}
@@ -65,6 +65,10 @@ def _gen_cases(tier, seed):
             for plan in ([{'at': s0, 'act': ['cancel_future']}], [{'at': s0, 'act': ['pause', 'p']}, {'at': 'q', 'act': ['cancel_future']}]):
                 yield {'name': name, 'program': prog, 'plan': plans.uniq(plan, 'c%d' % s0), 'drain': True, 'probe': False,
                        'barrage': False, 'listener': True, 'req_output': req, 'recreate': 'created'}
+        # three observers, each of which takes the others off the process when it is told of the ending
+        for j, plan in enumerate([[]] + list(plans.all_placements(n, [['pause', 'p'], ['kill', 'k'], ['fail', 'f']], 1))):
+            yield {'name': name, 'program': prog, 'plan': plans.uniq(plan, 'd%d' % j), 'drain': True, 'probe': False,
+                   'barrage': False, 'listener': 'detaching', 'req_output': req}
         # the same listener registered twice (and another one registered twice, then removed)
         for j, plan in enumerate([[]] + list(plans.all_placements(n, [['pause', 'p'], ['kill', 'k'], ['fail', 'f']], 1))):
             yield {'name': name, 'program': prog, 'plan': plans.uniq(plan, 't%d' % j), 'drain': True, 'probe': False,
@@ -103,7 +107,7 @@ def run_case(case):
     viol = judges.judge_c02(rec)
     fin = rec['final']
     obs = {'terminated': int(bool(fin and fin['terminated'])), 'final': {}, 'kill_while_paused': 0, 'kill_in_step': 0, 'kill_from_listener': 0,
-           'unsuccessful_by_outputs': 0, 'views_compared': 0, 'raising_listener_runs': int(case.get('listener') == 'raising'), 'listener_twice_runs': int(case.get('listener') == 'twice')}
+           'unsuccessful_by_outputs': 0, 'views_compared': 0, 'raising_listener_runs': int(case.get('listener') == 'raising'), 'detaching_listener_runs': int(case.get('listener') == 'detaching'), 'listener_twice_runs': int(case.get('listener') == 'twice')}
     if fin:
         obs['final'][fin['state']] = 1
         if fin['terminated']:
